@@ -24,7 +24,7 @@ CHECKS["C01"] = {
     "engine": "E1 lattice explorer",
     "jobs": lambda tier: per_dim("C01.cpp", "C01", tier),
     "rule": "unit = (order, duration alphabet, N, duration word, scale, start time); every unit runs the full data basis (each unit waypoint / boundary component, rotated per coordinate) + generic dyadic data through all 4 construction routes; distinct = distinct axis tuples; non-trivial = N >= 2 (a linear system is solved)",
-    "bounds": {"quick": "3 orders x DIM 1..4 x N 1..5 x all 3^N duration words x 3 start times x full data basis x 4 routes",
+    "bounds": {"quick": "3 orders x DIM 1..4 x N 1..5 x all 3^N duration words (dyadic alphabet; plus the nearly-equal alphabet {1-2^-21, 1, 1+2^-22} for N <= 4) x 3 start times x full data basis x 5 routes",
                "thorough": "3 orders x DIM 1..10 x (N 1..8 all 3^N words; N 9,10 all 2^N words) x 3 scales x 4 start times + jittered alphabet N<=6, full data basis x 4 routes"},
     "thresholds": {"interp/bc scaled residual (cubic/quintic/septic)": [1e-12, 1e-11, 1e-9], "routes": "bitwise"},
     "assumptions": ASSUME_COMMON,
@@ -38,7 +38,7 @@ CHECKS["C02"] = {
     "engine": "E1 lattice explorer",
     "jobs": lambda tier: per_dim("C02.cpp", "C02", tier),
     "rule": "unit = (order, duration alphabet, N, duration word, scale); every unit compares the published coefficients for the full data basis + generic data with the dense long-double solve R1 and checks continuity of derivatives 0..2s-2 at every interior knot; for N<=3 (quick) / N<=4 (thorough), DIM<=2 the oracle R1 is itself cross-checked against the KKT minimiser R1'; non-trivial = N >= 2",
-    "bounds": {"quick": "3 orders x DIM 1..4 x N 1..5 x all 3^N duration words x full data basis",
+    "bounds": {"quick": "3 orders x DIM 1..4 x N 1..5 x all 3^N duration words (dyadic alphabet; plus the nearly-equal alphabet {1-2^-21, 1, 1+2^-22} for N <= 4) x full data basis",
                "thorough": "3 orders x DIM 1..10 x (N 1..8 all 3^N words; N 9,10 all 2^N words) x 3 scales + jittered alphabet N<=6, full data basis"},
     "thresholds": {"coef vs R1, scaled by the solution magnitude (cubic/quintic/septic)": [3e-9, 1e-8, 1e-6], "continuity": [1e-9, 3e-7, 1e-5], "R1' vs R1": 1e-9},
     "assumptions": ASSUME_COMMON + ["'minimises among all sufficiently smooth curves' is decided through the observable clause (C^{2s-2} continuity + agreement with the unique minimiser) and the finite-dimensional variational cross-check R1'"],
